@@ -313,13 +313,18 @@ def wsClose : Cps → Option Nat
   | [] => none
   | c :: t => if c = 0x29 then some 1 else if isTerm c then (wsClose t).map (· + 1) else none
 
-/-- `{url}*{w}\)` when no backtracking is needed: every character up to the closing `{w}\)` is taken by the first
-two alternatives of `{url}`. `none` = "this simple scan does not apply" (the production may still match). -/
+/-- `{url}*{w}\)` for the inputs on which the backtracking matcher has an obvious first success: a character is
+taken by the first two alternatives of `{url}` whenever possible (a backslash is such a character); a backslash
+is used as `{escape}` only when the next character is not a `{url}` character, may be escaped this way, and does
+not start the closing `{w}\)`. `none` = "this scan does not apply" (the production may still match). -/
 def urlBody : Cps → Option Nat
   | [] => none
-  | c :: t =>
-    if isUrlChar c then (urlBody t).map (· + 1)
-    else wsClose (c :: t)
+  | [c] => if isUrlChar c then none else wsClose [c]
+  | c :: d :: t' =>
+    if isUrlChar c then
+      if c = 0x5C ∧ !isUrlChar d ∧ !isNl d ∧ wsClose (d :: t') = none then (urlBody t').map (· + 2)
+      else (urlBody (d :: t')).map (· + 1)
+    else wsClose (c :: d :: t')
 
 /-- the URI production restricted to the literal prefix `url(` and the non-backtracking cases:
 `url(` `{w}` ( `{string}` | `{url}*` ) `{w}` `)` -/
